@@ -83,6 +83,9 @@ def build_schema(groups, dynamic=False):
         add("flag", cc.FeatureFlagField(default=True))
     if "misc" in groups:
         add("m_any", cc.AnyField()); add("m_inc", cc.IncludeField())
+        add("m_named", cc.IntField(name="Friendly Name"))        # a display name is not an identifier and not the key
+        add("gr\u00f6\u00dfe", cc.IntField())                       # keys are identifiers, not necessarily ASCII
+        add("\u540d\u524d", cc.StringField())
         f = cc.Field()
         f.storage_type = LocalMarker
         add("m_local", f)
@@ -361,9 +364,14 @@ def check_sig(ctx, sigs):
     schema.x = cc.IntField(default=1)
     funcs = {}
     for i, sig in enumerate(sigs):
+        # method keys: plain, non-ASCII identifier, and a method field built explicitly with a display name
+        key = ["m%d", "m\u00e9thode%d", "shown%d"][i % 3] % i
         f, src = make_func(sig, "m%d" % i)
-        cc.instance_method(schema, "m%d" % i)(f)
-        funcs["m%d" % i] = (f, sig, src)
+        if i % 3 == 2:
+            setattr(schema, key, cc.InstanceMethodField(f, name="Reload Settings %d" % i))
+        else:
+            cc.instance_method(schema, key)(f)
+        funcs[key] = (f, sig, src)
     case = {"kind": "sigs", "sigs": sigs, "job": "sigs"}
 
     def bad(what, msg):
